@@ -47,12 +47,11 @@ pub fn substitute(f: &F, chosen: &[(F, String)]) -> F {
 pub fn check_substitution(
     prefix: &str,
     case: &SemCase,
-    net: &Net,
+    g: &biodivine_lib_param_bn::symbolic_async_graph::SymbolicAsyncGraph,
     f: &F,
     sym: &LabelToSetMap,
     selectors: &[u64],
 ) -> Result<(bool, Vec<String>), Failure> {
-    let g = &net.graph;
     let text = f.canon();
     macro_rules! run {
         ($name:expr, $e:expr) => {
@@ -177,7 +176,7 @@ fn check(case: &SemCase, net: &Net, f: &F) -> Verdict {
         .and_then(|s| s.as_array())
         .map(|a| a.iter().filter_map(|x| x.as_u64()).collect())
         .unwrap_or_else(|| vec![0, 1, 2]);
-    match check_substitution("C10", case, net, f, &sym, &selectors) {
+    match check_substitution("C10", case, &net.graph, f, &sym, &selectors) {
         Err(fl) => Verdict::Fail(fl),
         Ok((nontrivial, mut classes)) => {
             classes.extend(net_classes(net));
@@ -186,6 +185,36 @@ fn check(case: &SemCase, net: &Net, f: &F) -> Verdict {
                 key: case.key(),
                 classes,
                 sample: case.sample(),
+            })
+        }
+    }
+}
+
+/// A case on a bundled benchmark model (`aeon` = "bundled:<index>").
+fn check_bundled(case: &SemCase) -> Verdict {
+    let idx: usize = case.aeon.trim_start_matches("bundled:").parse().unwrap_or(0);
+    let (name, bn) = match crate::bundled::load_model(idx) {
+        Ok(x) => x,
+        Err(_) => return Verdict::Discard("bundled-model-not-loadable"),
+    };
+    let g = match crate::bundled::graph_for(&bn, case.k) {
+        Ok(g) => g,
+        Err(_) => return Verdict::Discard("constraints-unsatisfiable"),
+    };
+    let f = case.parsed().remove(0);
+    let selectors: Vec<u64> = case.extra["selectors"]
+        .as_array()
+        .map(|a| a.iter().filter_map(|x| x.as_u64()).collect())
+        .unwrap_or_else(|| vec![0]);
+    match check_substitution("C10", case, &g, &f, &HashMap::new(), &selectors) {
+        Err(fl) => Verdict::Fail(fl),
+        Ok((nontrivial, mut classes)) => {
+            classes.push(format!("model:{name}"));
+            Verdict::Pass(CaseReport {
+                nontrivial,
+                key: case.key(),
+                classes,
+                sample: json!({"model": name, "formula": case.formulas[0]}),
             })
         }
     }
@@ -225,6 +254,57 @@ impl Property for C10 {
         }
     }
     fn replay(&self, case: &Value) -> Verdict {
+        if case["aeon"].as_str().map(|a| a.starts_with("bundled:")).unwrap_or(false) {
+            return match SemCase::from_json(case) {
+                Ok(c) => check_bundled(&c),
+                Err(_) => Verdict::Discard("unreadable-case"),
+            };
+        }
         replay_with(case, |case, net, fs| check(case, net, &fs[0]))
+    }
+    fn extra_stages(&self, tier: Tier, seed: u64, stats: &mut Stats) -> Option<Failure> {
+        // benchmark-size models: a deterministic stream of (formula, selectors) per model
+        use crate::bundled::*;
+        let models = tier.pick(3, MODELS.len());
+        let per_model = tier.pick(3, 25);
+        let failure: std::sync::Mutex<Option<Failure>> = std::sync::Mutex::new(None);
+        let reports: std::sync::Mutex<Vec<CaseReport>> = std::sync::Mutex::new(vec![]);
+        std::thread::scope(|scope| {
+            for m in 0..models {
+                let (failure, reports) = (&failure, &reports);
+                scope.spawn(move || {
+                    let Ok((_, bn)) = load_model(m) else { harness_error("bundled model not loadable") };
+                    let strat = (gen::raw_f(4, 10), prop::collection::vec(any::<u16>(), 1..=2));
+                    for (raw, sels) in sample_stream(&strat, mix(seed, 2000 + m as u64), per_model) {
+                        if failure.lock().unwrap().is_some() {
+                            return;
+                        }
+                        let f = bundled_formula(&raw, &bn);
+                        let case = SemCase {
+                            aeon: format!("bundled:{m}"),
+                            k: f.quant_depth() as u16,
+                            formulas: vec![f.canon()],
+                            context: Default::default(),
+                            extra: json!({"selectors": sels.iter().map(|x| *x as u64).collect::<Vec<_>>()}),
+                        };
+                        match guard(|| check_bundled(&case)) {
+                            Ok(Verdict::Fail(fl)) => {
+                                failure.lock().unwrap().get_or_insert(fl);
+                                return;
+                            }
+                            Ok(Verdict::Pass(rep)) => reports.lock().unwrap().push(rep),
+                            Ok(Verdict::Discard(r)) => harness_error(&format!("bundled case discarded: {r}")),
+                            Err(p) => harness_error(&format!("panic in the harness on a bundled model: {p}")),
+                        }
+                    }
+                });
+            }
+        });
+        let reports = reports.into_inner().unwrap();
+        stats.stages.insert("bundled".into(), json!({"models": models, "cases_per_model": per_model, "cases": reports.len()}));
+        for r in reports {
+            stats.add(r);
+        }
+        failure.into_inner().unwrap()
     }
 }
